@@ -74,10 +74,13 @@ def rewrite_map_closure(body, counts):
         counts['R5m'] = counts.get('R5m', 0) + 1
 
 
-def insert_tail(body, ghost):
+def insert_tail(body, ghost, unit_ret=False):
     """insert ghost text at the end of the outermost block: before the trailing expression if
     there is one, else before the closing brace.  Also before every `return` statement."""
     stmts = split_statements(body)
+    if unit_ret:
+        close = body.rstrip().rfind('}')
+        return body[:close] + ghost + '\n    ' + body[close:]
     if stmts:
         a, b = stmts[-1]
         last = body[a:b]
